@@ -103,7 +103,7 @@ structure Key where
   net : String
   vm : String
   image : String
-deriving DecidableEq, Repr, BEq
+deriving DecidableEq, Repr
 
 structure Obj where
   root : Bool := false
